@@ -217,3 +217,35 @@ func VerifCloseEngine(s ServerSocket) {
 		go ss.conn.eio.Close()
 	}
 }
+
+// VerifBackoff evaluates the reconnection back-off calculator for one
+// (delay, max, jitter, attempt number).
+func VerifBackoff(min, max time.Duration, jitter float32, attempt uint32) time.Duration {
+	b := newBackoff(min, max, jitter)
+	b.numAttempts = attempt
+	return b.duration()
+}
+
+// VerifManagerState reads the manager's connection state, back-off counter and skip flag.
+func VerifManagerState(m *Manager) (state int, attempts uint32, skip bool) {
+	m.stateMu.RLock()
+	state = int(m.state)
+	m.stateMu.RUnlock()
+	attempts = m.backoff.attempts()
+	m.skipReconnectMu.RLock()
+	skip = m.skipReconnect
+	m.skipReconnectMu.RUnlock()
+	return
+}
+
+// VerifClientSocketState reads a client socket's state and the number of buffered frames.
+func VerifClientSocketState(s ClientSocket) (state int, buffered int) {
+	cs := s.(*clientSocket)
+	cs.stateMu.RLock()
+	state = int(cs.state)
+	cs.stateMu.RUnlock()
+	cs.sendBufferMu.Lock()
+	buffered = len(cs.sendBuffer)
+	cs.sendBufferMu.Unlock()
+	return
+}
